@@ -296,6 +296,7 @@ type Stats struct {
 	KindsUsed                                    map[string]int
 	MultiBlockTxns, ReuseAfterDelete, YoungCols  int
 	Restores, Replicas, Keyed, Seeded, Tall      int
+	Nested                                       int
 	WritesByKind                                 map[string]int
 	FailedInserts, EmittedCommits, TriggerEvents int
 	IdViolations                                 []string
@@ -329,6 +330,7 @@ type World struct {
 	allIDs   map[uint64]bool
 	notes    []string
 	panicked string
+	seedKeys []string
 }
 
 type Profile struct {
@@ -350,6 +352,8 @@ type Profile struct {
 	K2          bool // allow several writes per string cell around a length-changing merge (finding K2)
 	K5          bool
 	K7          bool
+	DensePct    int // chance that a seeded history fills its last block completely
+	NestedPct   int // chance of a whole transaction nested inside another one's callback
 }
 
 func (w *World) colByName(n string) *Col {
@@ -559,6 +563,11 @@ func diffRows(prev, cur map[uint32]rowObs) string {
 			out = append(out, fmt.Sprintf("(%d, None)", o))
 		}
 	}
+	if len(out) > 3000 {
+		// no generated step changes that many rows (dense seeding is handled separately): keep the
+		// case evaluable; the truncated diff still disagrees with the model
+		out = out[:300]
+	}
 	return "[" + strings.Join(out, "; ") + "]"
 }
 
@@ -723,6 +732,20 @@ func coqWrites(ws []wr) string {
 
 var keyAlphabet = []string{"k1", "k2", "k3", "k4", "k5", "k6"}
 
+// keyOffset looks the key up in the collection's current lookup table (transactions nested in
+// one another change it between two statements of the outer one)
+func (w *World) keyOffset(k string) (uint32, bool) {
+	off, ok := w.coll.VerifKeys()[k]
+	return off, ok
+}
+
+func (w *World) pickKey() string {
+	if len(w.seedKeys) > 0 && w.rng.Chance(35) {
+		return w.seedKeys[w.rng.Intn(len(w.seedKeys))]
+	}
+	return keyAlphabet[w.rng.Intn(len(keyAlphabet))]
+}
+
 // genWrites draws writes for one row; off < 0 means "every row of a Range".
 func (g *txnGen) genWrites(off int64, n int, isInsert bool) []wr {
 	w := g.w
@@ -736,7 +759,7 @@ func (g *txnGen) genWrites(off int64, n int, isInsert bool) []wr {
 			if isInsert || off < 0 {
 				continue // the key of a new row is written by InsertKey/UpsertKey itself
 			}
-			k := keyAlphabet[w.rng.Intn(len(keyAlphabet))]
+			k := w.pickKey()
 			if g.keysIssued[k] && !w.prof.K5 {
 				continue
 			}
@@ -809,7 +832,7 @@ func (g *txnGen) doInsert(txn *column.Txn) {
 	keyed := w.keyed
 	upsert := false
 	if keyed {
-		key = keyAlphabet[w.rng.Intn(len(keyAlphabet))]
+		key = w.pickKey()
 		if g.keysIssued[key] && !w.prof.K5 {
 			return
 		}
@@ -833,14 +856,14 @@ func (g *txnGen) doInsert(txn *column.Txn) {
 		return nil
 	}
 	var err error
-	_, exists := w.prevKeys[key]
+	existingOff, exists := w.keyOffset(key)
 	switch {
 	case !keyed:
 		off, err = txn.Insert(fn)
 	case upsert:
 		if exists {
 			// update of an existing row: the writes must respect the per-cell rules of that row
-			ws = g.genWrites(int64(w.prevKeys[key]), w.rng.Intn(4), false)
+			ws = g.genWrites(int64(existingOff), w.rng.Intn(4), false)
 			if ws == nil {
 				ws = []wr{}
 			}
@@ -855,7 +878,7 @@ func (g *txnGen) doInsert(txn *column.Txn) {
 		g.stmt("insert", fmt.Sprintf("SInsert %d %s %v", off, coqWrites(ws), fail), fmt.Sprintf("RIns %d %v true", off, err != nil))
 	case upsert && exists:
 		g.stmt("upsert.update", fmt.Sprintf("SUpsertKey %s 0 %s %v", kb, coqWrites(ws), fail), fmt.Sprintf("RErr %v", err != nil))
-		g.noteBlock(w.prevKeys[key])
+		g.noteBlock(existingOff)
 		if err != nil {
 			g.mustAbort = true
 		}
@@ -942,11 +965,11 @@ func (g *txnGen) doDelete(txn *column.Txn) {
 
 func (g *txnGen) doKeyOp(txn *column.Txn) {
 	w := g.w
-	key := keyAlphabet[w.rng.Intn(len(keyAlphabet))]
+	key := w.pickKey()
 	kb := coqBytes([]byte(key))
 	if w.rng.Bool() {
 		var ws []wr
-		if off, ok := w.prevKeys[key]; ok {
+		if off, ok := w.keyOffset(key); ok {
 			ws = g.genWrites(int64(off), 1+w.rng.Intn(2), false)
 			g.noteBlock(off)
 		}
@@ -959,8 +982,9 @@ func (g *txnGen) doKeyOp(txn *column.Txn) {
 		g.stmt("querykey", fmt.Sprintf("SQueryKey %s %s", kb, coqWrites(ws)), fmt.Sprintf("RErr %v", err != nil))
 		return
 	}
+	off0, ok0 := w.keyOffset(key)
 	err := txn.DeleteKey(key)
-	if off, ok := w.prevKeys[key]; ok {
+	if off, ok := off0, ok0; ok {
 		g.noteBlock(off)
 		w.everDel[off] = true
 	}
@@ -1126,6 +1150,15 @@ func coqOffs(l []uint32) string {
 
 func (g *txnGen) doTerminal(txn *column.Txn) {
 	w := g.w
+	if len(w.prev) > 2000 {
+		// a dense block is selected: iteration results would be tens of thousands of offsets
+		if w.rng.Bool() {
+			g.stmt("count", "STerm TCount", fmt.Sprintf("RCount %d", txn.Count()))
+		} else {
+			g.doAggregate(txn)
+		}
+		return
+	}
 	switch w.rng.Intn(8) {
 	case 0, 1:
 		g.stmt("count", "STerm TCount", fmt.Sprintf("RCount %d", txn.Count()))
@@ -1199,32 +1232,67 @@ func (g *txnGen) doAggregate(txn *column.Txn) {
 	}
 }
 
-func (w *World) runTxn() {
-	g := &txnGen{w: w, deleted: map[uint32]bool{}, keysIssued: map[string]bool{}, cellOps: map[[2]int]int{},
+func newTxnGen(w *World, keys map[string]bool) *txnGen {
+	return &txnGen{w: w, deleted: map[uint32]bool{}, keysIssued: keys, cellOps: map[[2]int]int{},
 		cellMerge: map[[2]int]bool{}, colMerge: map[int]bool{}, colRange: map[int]bool{}, blocks: map[uint32]bool{}}
+}
+
+// body issues n random statements on the transaction
+func (g *txnGen) run(txn *column.Txn, n int) {
+	w := g.w
+	for i := 0; i < n && !g.mustAbort; i++ {
+		switch x := w.rng.Intn(100); {
+		case x < 30:
+			g.doInsert(txn)
+		case x < 50:
+			g.doAt(txn)
+		case x < 55:
+			g.doRead(txn)
+		case x < 67:
+			g.doDelete(txn)
+		case x < 67+w.prof.FilterPct/2:
+			g.doFilter(txn)
+		case x < 67+w.prof.FilterPct:
+			g.doTerminal(txn)
+		default:
+			if w.keyed {
+				g.doKeyOp(txn)
+			} else {
+				g.doAt(txn)
+			}
+		}
+	}
+}
+
+func (w *World) runTxn() {
+	keys := map[string]bool{}
+	g := newTxnGen(w, keys)
 	n := 1 + w.rng.Intn(w.prof.MaxStmts)
 	abort := w.rng.Chance(w.prof.AbortPct)
+	nested := w.rng.Chance(w.prof.NestedPct)
+	var inner *txnGen
+	innerCommitted := false
+	var preBody, preRes []string
 	err := w.coll.Query(func(txn *column.Txn) error {
-		for i := 0; i < n && !g.mustAbort; i++ {
-			switch x := w.rng.Intn(100); {
-			case x < 30:
-				g.doInsert(txn)
-			case x < 50:
-				g.doAt(txn)
-			case x < 55:
-				g.doRead(txn)
-			case x < 67:
-				g.doDelete(txn)
-			case x < 67+w.prof.FilterPct/2:
-				g.doFilter(txn)
-			case x < 67+w.prof.FilterPct:
-				g.doTerminal(txn)
-			default:
-				if w.keyed {
-					g.doKeyOp(txn)
-				} else {
-					g.doAt(txn)
+		if !nested {
+			g.run(txn, n)
+		} else {
+			g.run(txn, 1+n/2)
+			preBody, preRes = g.body, g.results
+			g.body, g.results = nil, nil
+			// a complete second transaction runs while this one is in flight
+			inner = newTxnGen(w, keys)
+			innerAbort := w.rng.Chance(w.prof.AbortPct)
+			ierr := w.coll.Query(func(t2 *column.Txn) error {
+				inner.run(t2, 1+w.rng.Intn(w.prof.MaxStmts))
+				if innerAbort || inner.mustAbort {
+					return errAbort
 				}
+				return nil
+			})
+			innerCommitted = ierr == nil
+			if !g.mustAbort {
+				g.run(txn, 1+n/2)
 			}
 		}
 		if abort || g.mustAbort {
@@ -1242,8 +1310,16 @@ func (w *World) runTxn() {
 	} else {
 		w.stats.Aborts++
 	}
-	obs := w.observe(g.results)
-	w.emit("StTxn [%s] %v\n    %s", strings.Join(g.body, ";\n      "), committed, obs)
+	if !nested {
+		obs := w.observe(g.results)
+		w.emit("StTxn [%s] %v\n    %s", strings.Join(g.body, ";\n      "), committed, obs)
+		return
+	}
+	w.stats.Nested++
+	all := append(append(append([]string{}, preRes...), inner.results...), g.results...)
+	obs := w.observe(all)
+	w.emit("StNested [%s]\n    [%s] %v\n    [%s] %v\n    %s", strings.Join(preBody, ";\n      "),
+		strings.Join(inner.body, ";\n      "), innerCommitted, strings.Join(g.body, ";\n      "), committed, obs)
 }
 
 // ---------------------------------------------------------------------------------------
@@ -1251,6 +1327,11 @@ func (w *World) runTxn() {
 
 func (w *World) seedBlocks() {
 	nb := 1 + w.rng.Intn(2)
+	dense := -1
+	if w.rng.Chance(w.prof.DensePct) {
+		dense = nb // the last block is completely full
+		w.stats.Tall++
+	}
 	for b := 0; b <= nb; b++ {
 		base := uint32(b) << 14
 		var offs []uint32
@@ -1263,6 +1344,12 @@ func (w *World) seedBlocks() {
 		if len(offs) == 0 {
 			offs = []uint32{base + 16383}
 		}
+		if b == dense {
+			offs = offs[:0]
+			for c := uint32(0); c < 16384; c++ {
+				offs = append(offs, base+c)
+			}
+		}
 		rec := commitRec{chunk: uint32(b), cols: map[int][]opRec{}}
 		var bufs []*commit.Buffer
 		row := commit.NewBuffer(64)
@@ -1273,13 +1360,24 @@ func (w *World) seedBlocks() {
 		}
 		bufs = append(bufs, row)
 		for _, col := range w.cols {
-			if col.K == KKey {
-				continue
-			}
 			buf := commit.NewBuffer(64)
 			buf.Reset(col.Name)
 			for _, o := range offs {
-				if !w.rng.Chance(60) {
+				if col.K == KKey && b == dense && o%1024 != 7 {
+					continue
+				}
+				if col.K == KKey {
+					// seeded rows of a keyed collection carry their own key
+					k := fmt.Sprintf("s%d", o)
+					v := Val{W: -1, B: []byte(k)}
+					putVal(buf, col.K, o, v)
+					rec.cols[col.ID] = append(rec.cols[col.ID], opRec{kind: "KPut", off: o, val: v})
+					if len(w.seedKeys) < 6 {
+						w.seedKeys = append(w.seedKeys, k)
+					}
+					continue
+				}
+				if !w.rng.Chance(60) || (b == dense && o%1024 != 7) {
 					continue
 				}
 				v := col.RandVal(w.rng, false)
@@ -1296,6 +1394,16 @@ func (w *World) seedBlocks() {
 		}
 		c := commit.Commit{ID: commit.Next(), Chunk: commit.Chunk(b), Updates: bufs}
 		w.coll.Replay(c)
+		if b == dense {
+			// 16384 markers: the model generates them itself; only Count is compared here and
+			// the dump becomes the baseline of the following diffs
+			rec.row = nil
+			colsTxt := rec.Coq()
+			colsTxt = colsTxt[strings.Index(colsTxt, "[] [")+3:]
+			w.observe(nil)
+			w.emit("StSeedDense %d %s %d", b, colsTxt, w.coll.Count())
+			continue
+		}
 		w.emit("StSeed (%s)", rec.Coq())
 		obs := w.observe(nil)
 		w.emit("StTxn [] true\n    %s", obs)
@@ -1448,7 +1556,7 @@ func runCase(seed uint64, idx int, prof Profile, stats *Stats) (text string, not
 			w.addComp("sorted")
 		}
 	}
-	if !w.keyed && rng.Chance(prof.SeedPct) {
+	if rng.Chance(prof.SeedPct) {
 		w.seedBlocks()
 	}
 	for t := 0; t < prof.Txns; t++ {
